@@ -5,6 +5,8 @@ TSGEN = "src/generators/ts/generator.rs"
 ZODGEN = "src/generators/zod/generator.rs"
 BUILD = "src/build/mod.rs"
 CACHE = "src/build/generation_cache.rs"
+OM = "src/build/output_manager.rs"
+CFG = "src/interface/config.rs"
 
 MUTANTS = [
     # ---------------------------------------------------------------- C17
@@ -30,4 +32,30 @@ MUTANTS = [
                  "        Self::put(&file_path, content)?;\n        self.generated_files.push(filename.to_string());\n        Ok(())\n    }\n\n    fn put(p: &str, c: &str) -> Result<(), Box<dyn std::error::Error>> {\n        fs::write(p, c)?;\n        Ok(())\n    }")]),
     dict(id="C17-silent-match-instead-of-question", prop="C17", expect=None,
          edits=[(FW, "        fs::write(&file_path, content)?;\n        self.generated_files", "        if let Err(e) = fs::write(&file_path, content) {\n            return Err(e.into());\n        }\n        self.generated_files")]),
+    # ---------------------------------------------------------------- C16
+    dict(id="C16-predicate-ends-with-ts", prop="C16", expect="C16-D3-deletion-predicate",
+         edits=[(OM, "            || filename.contains(\"_generated\")", "            || filename.contains(\"_generated\")\n            || filename.ends_with(\".ts\")")]),
+    dict(id="C16-predicate-literal-utils", prop="C16", expect="C16-D3-deletion-predicate",
+         edits=[(OM, "            \"bindings.d.ts\",\n", "            \"bindings.d.ts\",\n            \"utils.ts\",\n")]),
+    dict(id="C16-viz-to-parent-dir", prop="C16", expect="C16-D2-path-provenance",
+         edits=[(BUILD, "let viz_file_path = Path::new(output_path).join(\"dependency-graph.txt\");",
+                 "let viz_file_path = Path::new(output_path).parent().unwrap_or(Path::new(\".\")).join(\"dependency-graph.txt\");")]),
+    dict(id="C16-filename-from-model", prop="C16", expect="C16-D2-path-provenance",
+         edits=[(TSGEN, "        file_writer.write_commands_file(&commands_content)?;", "        file_writer.write_typescript_file(&format!(\"{}.ts\", commands[0].name), &commands_content)?;")]),
+    dict(id="C16-drop-not-current-guard", prop="C16", expect="C16-D3-deletion-predicate",
+         edits=[(OM, "if self.is_generated_file(filename) && !current_set.contains(filename) {", "if self.is_generated_file(filename) {")]),
+    dict(id="C16-cleanup-removes-dirs", prop="C16", expect="C16-D",
+         edits=[(OM, "            if path.is_file() {\n                if let Some(filename) = path.file_name().and_then(|n| n.to_str()) {\n                    // Only clean up",
+                 "            if path.is_dir() {\n                let _ = fs::remove_dir_all(&path);\n            }\n            if path.is_file() {\n                if let Some(filename) = path.file_name().and_then(|n| n.to_str()) {\n                    // Only clean up")]),
+    dict(id="C16-write-into-project", prop="C16", expect="C16-D",
+         edits=[(BIN, "    // Save cache after successful generation\n    let cache = GenerationCache::new(&commands, discovered_structs, &config)?;",
+                 "    fs::write(PathBuf::from(&config.project_path).join(\"bindings.ts\"), \"x\")?;\n    // Save cache after successful generation\n    let cache = GenerationCache::new(&commands, discovered_structs, &config)?;")]),
+    dict(id="C16-cache-file-elsewhere", prop="C16", expect="C16-D2-path-provenance",
+         edits=[(CACHE, "        output_dir.as_ref().join(CACHE_FILE_NAME)", "        output_dir.as_ref().join(\"..\").join(CACHE_FILE_NAME)")]),
+    dict(id="C16-silent-helper-around-write", prop="C16", expect=None,
+         edits=[(FW, "        fs::write(&file_path, content)?;\n        self.generated_files.push(filename.to_string());\n        Ok(())\n    }",
+                 "        Self::put(&file_path, content)?;\n        self.generated_files.push(filename.to_string());\n        Ok(())\n    }\n\n    fn put(p: &str, c: &str) -> Result<(), Box<dyn std::error::Error>> {\n        fs::write(p, c)?;\n        Ok(())\n    }")]),
+    dict(id="C16-silent-pathbuf-join", prop="C16", expect=None,
+         edits=[(FW, "        let file_path = format!(\"{}/{}\", self.output_path, filename);\n        fs::write(&file_path, content)?;",
+                 "        let file_path = Path::new(&self.output_path).join(filename);\n        fs::write(&file_path, content)?;")]),
 ]
